@@ -60,3 +60,8 @@ package keeper
 //@   modifies DidBalances[did], Bank
 //@   ensures [C06.did.ledger] err == nil && amount.Amount != 0 ==> has(DidBalances, did)
 //@       && DidBalances[did].Balance.Amount == (old(has(DidBalances, did)) ? old(DidBalances[did].Balance.Amount) : 0) + amount.Amount
+//@   ensures [C06.did.bank] err == nil && amount.Amount != 0 && moduleAddr(module) != moduleAddr("did") ==>
+//@       bal(moduleAddr("did"), amount.Denom) == old(bal(moduleAddr("did"), amount.Denom)) + amount.Amount
+//@       && bal(moduleAddr(module), amount.Denom) == old(bal(moduleAddr(module), amount.Denom)) - amount.Amount && amount.Amount > 0
+//@   ensures [C06.did.bankframe] forall a addr, d string :: (a != moduleAddr(module) && a != moduleAddr("did")) || d != amount.Denom ==> bal(a, d) == old(bal(a, d))
+//@   ensures [C06.did.zero] amount.Amount == 0 ==> err == nil && (forall a addr, d string :: bal(a, d) == old(bal(a, d))) && DidBalances[did] == old(DidBalances[did]) && (has(DidBalances, did) <==> old(has(DidBalances, did)))
